@@ -43,7 +43,7 @@ from round to round is the point of the exercise: each round was asked to evade 
 had taught the machinery, and every miss became a new generator dimension or a sharper rule.
 
 Re-verification at the end (`bin/selftest --seeds`, in pieces because of its length): after the last generator changes 107
-of the 230 changes were run again against the final checks (every change aimed at C01, C02, C10, C11 and C15 to C19) and the other
+of the 230 changes of rounds 1 to 10 were run again against the final checks (every change aimed at C01, C02, C10, C11 and C15 to C19) and the other
 rounds-1-to-7 changes against the state of commit `47bd4a9`; one regression showed (C01-r8c had slipped through the quick-tier
 thinning of the `apifull` programs) and was repaired, everything else was detected. The changes of rounds 8 to 10 were each run
 against the strengthened checks when they were recorded.
